@@ -26,7 +26,7 @@ from rv.oracles import errprop as EP
 ID = 'C04'
 RULE = ('seeded state points on analytic truth motions: |lat|<=80, speed bands <=20 / <=300 m/s, alt 0..20 km, |pitch|<=80, attitude '
         'rates to ~1 rad/s; filter steps Delta in {0.1, 0.5, 1, 2} s, IMU step 5 and 2.5 ms; 9 (or 7) error states x 2 signs and 6 sensor-'
-        'error directions x 2 signs per point; both altitude modes; propagate_errors at trajectory sampling dt and dt/2, constant and '
+        'error directions x 2 signs per point; both altitude modes; propagate_errors on evenly, unevenly and two-rate sampled trajectories (every interval then halved), constant and '
         'per-stamp sensor errors; non-trivial = every point (the existing test uses one trajectory, large errors, 12 % tolerance); '
         'distinct = generator parameters')
 ASSUMPTIONS = ['neglected-term table N (per unit time): DR-DR v(1+tan)/R; DV-DR (0.06 + 2 Omega v + v^2 (1+tan^2)/R)/R; DV-PHI (2 Omega + '
@@ -34,7 +34,7 @@ ASSUMPTIONS = ['neglected-term table N (per unit time): DR-DR v(1+tan)/R; DV-DR 
                'calibrated on the unchanged tree (max observed ratio of the residual to the bound recorded in the evidence) and frozen before the mutation runs',
                'finite-difference steps 1 km / 1 m/s / 1e-4 rad (1e-6 m is below the ulp of a longitude in degrees)']
 REQUIRED_OBS = ['state_points', 'blocks_checked', 'sensor_blocks_checked', 'points_3d', 'points_2d', 'slow_points', 'fast_points',
-                'propagate_errors_checked', 'system_matrices_calls']
+                'propagate_errors_checked', 'system_matrices_calls', 'propagate_uniform', 'propagate_uneven', 'propagate_two_rate']
 REQUIRED_CLASSES = {'all': ['3d-slow', '3d-fast', '2d-slow', '2d-fast', 'propagate']}
 R0 = 6.37e6
 OMEGA = 7.292115e-5
@@ -221,9 +221,24 @@ def run_propagate(case, out, obs):
     from pyins import transform
     measured = transform.compute_state_difference(I.trajectory, I0.trajectory)
     res = []
-    for k, dt in enumerate((0.1, 0.05)):
-        step = int(round(dt / h))
-        tr = I0.trajectory.iloc[::step]
+    # the trajectory handed to propagate_errors need not be evenly sampled ("every trajectory"): uniform, randomly uneven, or two
+    # rates (e.g. 20 ms then 0.4 s); the second rung halves every interval
+    N = len(I0.trajectory) - 1
+    pattern = ['uniform', 'uneven', 'two_rate'][case['seed'] % 3]
+    if pattern == 'uniform':
+        steps = np.full(N // 20, 20)
+    elif pattern == 'uneven':
+        steps = rng.choice([8, 12, 20, 30, 40], size=N // 8)
+    else:
+        a_, b_ = (4, 80) if rng.random() < 0.5 else (80, 4)
+        ksw = int(N * rng.uniform(0.2, 0.5))
+        steps = np.r_[np.full(ksw // a_, a_), np.full(N // b_, b_)]
+    idx = np.r_[0, np.cumsum(steps)]
+    idx = idx[idx <= N]
+    obs['propagate_' + pattern] = 1
+    for k in range(2):
+        ii = idx if k == 0 else np.sort(np.r_[idx, (idx[:-1] + idx[1:]) // 2])
+        tr = I0.trajectory.iloc[ii]
         if per_stamp:
             g_arg, a_arg = np.tile(ge, (len(tr), 1)), np.tile(ae, (len(tr), 1))
         else:
